@@ -121,7 +121,7 @@ func checkFilter(r *Run, prog *Program, a *Anchors, pfx string) {
 			// every evaluation: receiver is f.evaluator, datum is item.Interface() of an element obtained from the input by this iteration's index/key
 			items := []string{}
 			for n, ev := range evals {
-				if len(ev.Args) != 2 || ev.Args[0].Key() != loadField(pF, "evaluator").Key() {
+				if len(ev.Args) != 2 || ev.Args[0].Key() != loadField(pF, filterEvalField(prog)).Key() {
 					probs = append(probs, "the element is not evaluated with the filter's own evaluator")
 					continue
 				}
@@ -263,9 +263,11 @@ func checkFilter(r *Run, prog *Program, a *Anchors, pfx string) {
 	for _, fa := range prog.FieldAccesses(prog.ModuleFuncs()) {
 		if fa.Struct.Obj().Name() == "Filter" && fa.Struct.Obj().Pkg().Path() == modPath && fa.Kind == "write" {
 			n++
-			ok := fa.Fn == a.CreateFi
+			ok := fa.Fn == a.CreateFi || (prog.ctorHelper(a, fa.Fn, 0) && prog.contextOnly(fa.Fn, func(c *ssa.Function) bool { return c == a.CreateFi }))
 			if ok {
 				root, _ := rootOf(fa.Val)
+				root = prog.originOfParam(root, 0) // a helper of CreateFilter stores what CreateFilter hands it
+				root, _ = rootOf(root)
 				ex, isEx := root.(*ssa.Extract)
 				ok = isEx && ex.Index == 0
 				if ok {
